@@ -2,7 +2,7 @@
    check relies on, their assumptions, and non-vacuity examples.  The per-run
    instance (forallb site_ok accesses = true, ... over the table regenerated
    from the working tree) is compiled by tools/eng_locks.py. *)
-From Coq Require Import String List Bool Arith Relations Lia.
+From Coq Require Import String List Bool Arith Relations Lia ZArith Permutation.
 From GV Require Import Locks.Tables Locks.Policy Locks.DRF Locks.Deadlock Locks.Check Locks.RefFacts.
 Import ListNotations.
 Open Scope string_scope.
@@ -72,6 +72,66 @@ Print Assumptions C06_table_waiter_reaches_runnable.
 Print Assumptions C06_order_acyclic.
 
 (* ---------------------------------------------------------------------- *)
+(* atomicity granularity (logical races): groups of accesses inside one critical-section instance, counters *)
+
+Theorem C10_group_atomic :
+  forall (thread lockinst loc : Type) (tr : trace thread lockinst loc) (k : nat) (t : thread)
+         (l : lockinst) (m : mode) (i j w : nat) (u : thread) (x : loc) (wr a f : bool),
+    consistent thread lockinst loc tr ->
+    in_section thread lockinst loc tr k t l m i ->
+    in_section thread lockinst loc tr k t l m j ->
+    i <= w -> w <= j ->
+    ev thread lockinst loc tr w = Some (EAcc thread lockinst loc u x wr a f) ->
+    u <> t -> holds_for thread lockinst loc tr w u l wr -> m = MR /\ wr = false.
+Proof. exact group_atomic. Qed.
+
+Theorem C10_table_group_atomic :
+  forall (thread lockinst loc : Type) (tr : trace thread lockinst loc) (tbl : list srow)
+         (g : group) (t : thread) (l : lockinst) (members : nat -> Prop) (row_of : nat -> option srow)
+         (opened : string -> option (nat * mode)),
+    group_ok tbl g = true ->
+    consistent thread lockinst loc tr ->
+    group_conforms thread lockinst loc tr tbl g t l members row_of opened ->
+    forall i j : nat,
+      members i -> members j -> sectioned g row_of i -> sectioned g row_of j ->
+      forall (w : nat) (u : thread) (x : loc) (wr a f : bool),
+        i <= w -> w <= j ->
+        ev thread lockinst loc tr w = Some (EAcc thread lockinst loc u x wr a f) ->
+        u <> t ->
+        holds_for thread lockinst loc tr w u l wr ->
+        wr = false /\
+        (exists k : nat, in_section thread lockinst loc tr k t l MR i /\ in_section thread lockinst loc tr k t l MR j).
+Proof. exact table_group_atomic. Qed.
+
+Theorem C10_counter_no_lost_update :
+  forall (ops : list cop) (v : Z), forallb add_or_load ops = true -> crun ops v = (v + adds ops)%Z.
+Proof. exact counter_no_lost_update. Qed.
+
+Theorem C10_counter_interleaving_independent :
+  forall (ops ops' : list cop) (v : Z),
+    Permutation ops ops' -> forallb add_or_load ops = true -> crun ops v = crun ops' v.
+Proof. exact counter_interleaving_independent. Qed.
+
+Theorem C10_counter_since_reset :
+  forall (pre post : list cop) (c v : Z),
+    forallb add_or_load post = true -> crun (pre ++ CStore c :: post) v = (c + adds post)%Z.
+Proof. exact counter_since_reset. Qed.
+
+Theorem C10_counter_rows :
+  forall tbl : list site, forallb counter_ok tbl = true ->
+    forall (s : site) (ops : list aop), In s tbl ->
+      lookup_counter (s_type s) (s_field s) counters = Some ops -> s_fresh s = false ->
+      s_atomic s = true /\ existsb (aop_eqb (s_op s)) ops = true.
+Proof. exact counter_ok_ops. Qed.
+
+Print Assumptions C10_group_atomic.
+Print Assumptions C10_table_group_atomic.
+Print Assumptions C10_counter_no_lost_update.
+Print Assumptions C10_counter_interleaving_independent.
+Print Assumptions C10_counter_since_reset.
+Print Assumptions C10_counter_rows.
+
+(* ---------------------------------------------------------------------- *)
 (* non-vacuity: the semantics has racy executions, and the lock discipline removes them *)
 
 Definition T := trace nat nat nat.
@@ -113,19 +173,19 @@ Qed.
 
 (* the checkers do reject: rows of the unfixed tree (DR1, DR2, DR4; a self-acquisition; a receive under a lock) *)
 Example bad_row_DR1 :
-  site_ok (mkSite "gcp_multiendpoint.go" 140 "GCPMultiEndpoint.pickConn" "GCPMultiEndpoint" "mes" KCRead false false [] [] [] [CxApp]) = false.
+  site_ok (mkSite "gcp_multiendpoint.go" 140 "GCPMultiEndpoint.pickConn" "GCPMultiEndpoint" "mes" KCRead false false [] [] [] [CxApp] OpPlain) = false.
 Proof. vm_compute. reflexivity. Qed.
 Example bad_row_DR2 :
-  site_ok (mkSite "gcp_balancer.go" 195 "subConnRef.gotResp" "subConnRef" "lastResp" KWrite false false [] [] [] [CxDone]) = false.
+  site_ok (mkSite "gcp_balancer.go" 195 "subConnRef.gotResp" "subConnRef" "lastResp" KWrite false false [] [] [] [CxDone] OpPlain) = false.
 Proof. vm_compute. reflexivity. Qed.
 Example read_lock_does_not_allow_write :
-  site_ok (mkSite "x.go" 1 "f" "gcpBalancer" "scRefs" KCWrite false false [(GB, MR)] [(GB, MR)] [] [CxPick]) = false.
+  site_ok (mkSite "x.go" 1 "f" "gcpBalancer" "scRefs" KCWrite false false [(GB, MR)] [(GB, MR)] [] [CxPick] OpPlain) = false.
 Proof. vm_compute. reflexivity. Qed.
 Example good_row :
-  site_ok (mkSite "gcp_balancer.go" 357 "gcpBalancer.addSubConn" "gcpBalancer" "scRefs" KCWrite false false [(GB, MW)] [(GB, MW); (GP, MW)] [] [CxCallback; CxPick]) = true.
+  site_ok (mkSite "gcp_balancer.go" 357 "gcpBalancer.addSubConn" "gcpBalancer" "scRefs" KCWrite false false [(GB, MW)] [(GB, MW); (GP, MW)] [] [CxCallback; CxPick] OpPlain) = true.
 Proof. vm_compute. reflexivity. Qed.
 Example unknown_field_is_rejected :
-  site_ok (mkSite "x.go" 1 "f" "gcpBalancer" "brandNewField" KRead false false [(GB, MW)] [(GB, MW)] [] [CxPick]) = false.
+  site_ok (mkSite "x.go" 1 "f" "gcpBalancer" "brandNewField" KRead false false [(GB, MW)] [(GB, MW)] [] [CxPick] OpPlain) = false.
 Proof. vm_compute. reflexivity. Qed.
 Example self_acquire_rejected :
   acquire_ok (mkAcq "gcp_balancer.go" 327 "gcpBalancer.newSubConn" GB MW [(GB, MW)] [(GB, MW)]) = false.
@@ -143,6 +203,59 @@ Example cond_wait_on_own_mutex_accepted :
   block_ok (mkBlk "gcp_interceptor.go" 122 "gcpClientStream.RecvMsg" BCondWait "cs.cond" CS [(CS, MW)] [(CS, MW)]) = true.
 Proof. vm_compute. reflexivity. Qed.
 
+(* lost update: two increments written as Load ... Store (both threads load 5, both store 6) add only one *)
+Example load_store_loses_an_update : crun [CLoad; CLoad; CStore 6; CStore 6] 5 = 6%Z /\ crun [CAdd 1; CAdd 1] 5 = 7%Z.
+Proof. split; reflexivity. Qed.
+
+(* a foreign write between two reads of one read section contradicts the lock semantics: the trace is inconsistent *)
+Definition torn : T :=
+  [Acq 1 3 MR; Acc 1 7 false false false; Acq 2 3 MW; Acc 2 7 true false false; Rel 2 3 MW; Acc 1 8 false false false; Rel 1 3 MR].
+Example torn_is_inconsistent : ~ consistent nat nat nat torn.
+Proof.
+  intros Hc. assert (H : held_at nat nat nat torn 2 1 3 MR).
+  { exists 0. repeat split; simpl; auto. intros r H1 H2. assert (r = 1) by lia. subst r. simpl. discriminate. }
+  assert (E : ev nat nat nat torn 2 = Some (Acq 2 3 MW)) by reflexivity.
+  assert (Hne : 1 <> 2) by discriminate.
+  destruct (Hc 2 2 3 MW E 1 MR Hne H) as [_ B]. discriminate.
+Qed.
+
+(* the group and counter checkers do reject: rows as produced for the seeded changes *)
+Definition ex_pick_ok : list srow := [
+  mkSrow "GCPMultiEndpoint.pickConn" "gcp_multiendpoint.go" 142 "GCPMultiEndpoint.pickConn" "GCPMultiEndpoint" "mes" KCRead OpPlain [(GME, MR)] [(GME, ["gcp_multiendpoint.go:140"])];
+  mkSrow "GCPMultiEndpoint.pickConn" "gcp_multiendpoint.go" 144 "GCPMultiEndpoint.pickConn" "GCPMultiEndpoint" "defaultName" KRead OpPlain [(GME, MR)] [(GME, ["gcp_multiendpoint.go:140"])];
+  mkSrow "GCPMultiEndpoint.pickConn" "multiendpoint.go" 140 "multiendpoint.multiEndpoint.Current" "multiEndpoint" "current" KRead OpPlain [(GME, MR); (ME, MR)] [(GME, ["gcp_multiendpoint.go:140"]); (ME, ["multiendpoint.go:138"])];
+  mkSrow "GCPMultiEndpoint.pickConn" "gcp_multiendpoint.go" 146 "GCPMultiEndpoint.pickConn" "GCPMultiEndpoint" "pools" KCRead OpPlain [(GME, MR)] [(GME, ["gcp_multiendpoint.go:140"])]].
+(* Current() and the pool lookup moved out of the first read section *)
+Definition ex_pick_split : list srow := [
+  mkSrow "GCPMultiEndpoint.pickConn" "gcp_multiendpoint.go" 142 "GCPMultiEndpoint.pickConn" "GCPMultiEndpoint" "mes" KCRead OpPlain [(GME, MR)] [(GME, ["gcp_multiendpoint.go:140"])];
+  mkSrow "GCPMultiEndpoint.pickConn" "gcp_multiendpoint.go" 144 "GCPMultiEndpoint.pickConn" "GCPMultiEndpoint" "defaultName" KRead OpPlain [(GME, MR)] [(GME, ["gcp_multiendpoint.go:140"])];
+  mkSrow "GCPMultiEndpoint.pickConn" "multiendpoint.go" 140 "multiendpoint.multiEndpoint.Current" "multiEndpoint" "current" KRead OpPlain [(ME, MR)] [(ME, ["multiendpoint.go:138"])];
+  mkSrow "GCPMultiEndpoint.pickConn" "gcp_multiendpoint.go" 151 "GCPMultiEndpoint.pickConn" "GCPMultiEndpoint" "pools" KCRead OpPlain [(GME, MR)] [(GME, ["gcp_multiendpoint.go:149"])]].
+Definition g_pick := nth 9 groups (mkGroup "" [] "" "" false [] "").
+Example g_pick_is_pickConn : g_name g_pick = "gme.pickConn". Proof. reflexivity. Qed.
+Example group_one_section_accepted : group_ok ex_pick_ok g_pick = true. Proof. vm_compute. reflexivity. Qed.
+Example group_two_sections_rejected : group_ok ex_pick_split g_pick = false. Proof. vm_compute. reflexivity. Qed.
+Example group_missing_member_rejected : group_ok (firstn 3 ex_pick_ok) g_pick = false. Proof. vm_compute. reflexivity. Qed.
+Example group_loop_reentry_rejected :
+  group_ok [mkSrow "GCPMultiEndpoint.Close" "x.go" 5 "GCPMultiEndpoint.Close" "GCPMultiEndpoint" "pools" KCRead OpPlain [(GME, MW)] [(GME, ["x.go:4"; "x.go:4+"])]]
+           (nth 11 groups g_pick) = false.
+Proof. vm_compute. reflexivity. Qed.
+Example counter_add_accepted :
+  counter_ok (mkSite "gcp_balancer.go" 183 "subConnRef.streamsIncr" "subConnRef" "streamsCnt" KWrite true false [] [] [] [CxPick] OpAdd) = true.
+Proof. vm_compute. reflexivity. Qed.
+Example counter_store_rejected :
+  counter_ok (mkSite "gcp_balancer.go" 537 "gcpBalancer.UpdateSubConnState" "subConnRef" "streamsCnt" KWrite true false [(GB, MW)] [(GB, MW)] [] [CxCallback] OpStore) = false.
+Proof. vm_compute. reflexivity. Qed.
+Example counter_load_store_cursor_rejected :
+  counter_ok (mkSite "gcp_balancer.go" 411 "gcpBalancer.getSubConnRoundRobin" "gcpBalancer" "rrRefId" KRead true false [(GB, MR)] [(GB, MR)] [] [CxPick] OpLoad) = false.
+Proof. vm_compute. reflexivity. Qed.
+Example counter_reset_to_zero_accepted :
+  counter_ok (mkSite "gcp_balancer.go" 196 "subConnRef.gotResp" "subConnRef" "deCalls" KWrite true false [(GB, MW)] [(GB, MW)] [] [CxDone] OpStore0) = true.
+Proof. vm_compute. reflexivity. Qed.
+Example counter_plain_access_rejected :
+  counter_ok (mkSite "gcp_picker.go" 154 "gcpPicker.detectUnresponsive" "subConnRef" "deCalls" KRead false false [(GB, MR)] [(GB, MR)] [] [CxDone] OpPlain) = false.
+Proof. vm_compute. reflexivity. Qed.
+
 (* regression: the reference table (tree with the proposed fixes) passes every check *)
 Example ref_sites_ok : forallb site_ok accesses = true.
 Proof. vm_compute. reflexivity. Qed.
@@ -154,3 +267,7 @@ Example ref_order_acyclic : order_acyclic acquires = true.
 Proof. vm_compute. reflexivity. Qed.
 Example ref_no_unknowns : unknowns = [].
 Proof. reflexivity. Qed.
+Example ref_groups_ok : forallb (group_ok scoped) groups = true.
+Proof. vm_compute. reflexivity. Qed.
+Example ref_counters_ok : forallb counter_ok accesses = true.
+Proof. vm_compute. reflexivity. Qed.
